@@ -243,6 +243,7 @@ def check_table(acc, h, table, mode, order, layer):
     except Exception as e:
         acc.violation('C06:construct:%s' % type(e).__name__, 'table %r (%s) failed to construct: %r' % (desc, mode, e),
                       {'table': desc, 'mode': mode, 'order': order})
+        acc.evaluated += len(REQ_PATHS) * len(REQ_METHODS)      # the requests of this table are decided: all fail
         return
     if order is not None:
         for present, path, res, log in h.interim:
